@@ -3,6 +3,7 @@ package commitlog
 import (
 	"errors"
 	"hash/crc32"
+	"math"
 
 	client "github.com/liftbridge-io/liftbridge-api/v2/go"
 )
@@ -37,6 +38,10 @@ func (m *Message) Encode(e packetEncoder) error {
 	}
 	if err := e.PutBytes(m.Value); err != nil {
 		return err
+	}
+	// The number of headers is read back as a uint16.
+	if len(m.Headers) > math.MaxUint16 {
+		return errInvalidArrayLength
 	}
 	e.PutInt16(int16(len(m.Headers)))
 	for key, header := range m.Headers {
